@@ -319,6 +319,7 @@ package persistence
 //@   trusted "creating the database directory touches nothing the contracts speak about"
 //@ func (persistence).Init
 //@   params (p)
+//@   props C14 C15
 //@   modifies nothing
 
 //@ func NewPersistence
